@@ -11,6 +11,7 @@ D: (a) heap-graph correspondence: sampled calls are run on the untouched
    (b) behavioural family / search oracle: frozen snapshots of every list
    object of every position retained from a growing game tree are compared
    after every call (accepted, refused, refused part-way)."""
+import copy
 import hashlib
 import json
 import time
@@ -76,6 +77,89 @@ def _impl():
 def freeze(p):
     """structural snapshot of a position (nested tuples; pieces are cached immutable objects)"""
     return (p.size, p.ply, p.stones, tuple(tuple(sq) for sq in p.board))
+
+
+def fullsnap(p):
+    """every field the class has NOW (attrs.fields, not a fixed list), recursively, as fresh containers"""
+    import attrs
+    return attrs.asdict(p, recurse=True)
+
+
+def safe_hash(p):
+    try:
+        return hash(p)
+    except TypeError:
+        return None
+
+
+def whole_value_diff(p, nd):
+    """names of the fields in which p differs from the deep copy taken when it was created (whole-value ==, hash where
+    defined, attrs.asdict of all fields); [] if the position still equals its creation-time snapshot"""
+    import attrs
+    deep = nd["deep"]
+    if p == deep and not (p != deep) and safe_hash(p) == nd["hash"] and fullsnap(p) == nd["full"]:
+        return []
+    out = [f.name for f in attrs.fields(type(p)) if getattr(p, f.name) != getattr(deep, f.name)]
+    if safe_hash(p) != nd["hash"]:
+        out.append("__hash__")
+    return out or ["__eq__"]
+
+
+def _jfields(p, names):
+    return {n: repr(getattr(p, n, None))[:300] for n in names if not n.startswith("__")}
+
+
+def tall_squares(rng, tak, size, h):
+    """a board with one tower of height h (top stone of the side to move, colours alternating below), walls (a capstone
+    for size >= 5) two squares away and flats next to it on some of the four paths -> (squares, ply, tower square)"""
+    n = size
+    C, K = tak.Color, tak.Kind
+    mover = rng.randrange(2)
+    ply = 2 * rng.randint(2, 6) + mover
+    squares = [[] for _ in range(n * n)]
+    tx, ty = rng.randrange(n), rng.randrange(n)
+    squares[tx + ty * n] = [tak.Piece.cached(C((mover + k) % 2), K.FLAT) for k in range(h)]
+    used_cap = False
+    for dx, dy in ((1, 0), (-1, 0), (0, 1), (0, -1)):
+        x1, y1, x2, y2 = tx + dx, ty + dy, tx + 2 * dx, ty + 2 * dy
+        if 0 <= x2 < n and 0 <= y2 < n and rng.random() < 0.6:
+            if n >= 5 and not used_cap and rng.random() < 0.5:
+                squares[x2 + y2 * n] = [tak.Piece.cached(C(1 - mover), K.CAPSTONE)]
+                used_cap = True
+            else:
+                squares[x2 + y2 * n] = [tak.Piece.cached(C(rng.randrange(2)), K.STANDING)]
+        if 0 <= x1 < n and 0 <= y1 < n and rng.random() < 0.3:
+            squares[x1 + y1 * n] = [tak.Piece.cached(C(rng.randrange(2)), K.FLAT)]
+    return squares, ply, (tx, ty)
+
+
+def tower_playout(rng, tak, size, target, max_plies=120):
+    """guided play from the empty board towards one tall tower; -> list of (move, position) actually played"""
+    p = tak.Position.from_config(tak.Config(size=size))
+    hist = []
+    for _ in range(max_plies):
+        if max(len(sq) for sq in p.board) >= target or p.winner() != (None, None):
+            break
+        best, bh = [], -10 ** 9
+        ms = p.all_moves()
+        rng.shuffle(ms)
+        for m in ms[:60]:
+            try:
+                q = p.move(m)
+            except tak.IllegalMove:
+                continue
+            if q.winner() != (None, None):
+                continue
+            sc = max(len(sq) for sq in q.board) * 10 + (0 if m.type.is_slide() else (1 if m.type == tak.MoveType.PLACE_FLAT else -5))
+            if sc > bh:
+                best, bh = [(m, q)], sc
+            elif sc == bh:
+                best.append((m, q))
+        if not best:
+            break
+        m, p = rng.choice(best)
+        hist.append((m, p))
+    return hist
 
 
 def illformed_moves(rng, tak, n, k):
@@ -228,6 +312,8 @@ def _graph_cases(run, world):
         after = enc.snapshot()
         if before != after:
             changed = [l for l, (a, b) in enumerate(zip(before, after)) if a != b]
+            desc = dict(desc, objects_before=[None if a is None else len(a) for a in before],
+                        objects_after=[None if a is None else len(a) for a in after])
             frame_violations.append({"function": name, "input": desc, "changed_locations": changed,
                                      "outcome": "raise " + repr(exc) if exc else "return"})
         if exc is not None and type(exc).__name__ not in ("IllegalMove", "IllegalTPS", "ValueError"):
@@ -264,7 +350,29 @@ def _graph_cases(run, world):
     def call_move(p, m, partway=False):
         enc = HeapEnc()
         lp = enc.add_pos(p, nf, board_slot)
-        one("move", enc, [lp, -1], p.move, (m,), {"position": takio.j_pos(p), "move": takio.j_move(m)}, partway)
+        nd = {"deep": copy.deepcopy(p), "full": fullsnap(p), "hash": safe_hash(p)}
+        desc = {"position": takio.j_pos(p), "move": takio.j_move(m)}
+        one("move", enc, [lp, -1], p.move, (m,), desc, partway)
+        wd = whole_value_diff(p, nd)
+        if wd:
+            frame_violations.append({"function": "move", "input": desc, "changed_locations": [],
+                                     "fields_differing_from_creation_time_deep_copy": wd, "fields_now": _jfields(p, wd),
+                                     "fields_at_creation": _jfields(nd["deep"], wd), "outcome": "whole value changed"})
+
+    # tall towers: heights 2*size+1 .. 3*size+2, every slide from the tower square in the id table (accepted, refused by
+    # a wall / capstone on the path, leaving the board), receivers built by from_squares and by parse_tps
+    from tak.model import encoding
+    for size in ([3, 4, 5] if run.quick else [3, 4, 5, 6]):
+        tb = [encoding.decode_move(size, i) for i in range(encoding.n_moves_for_size(size))]
+        for h in range(2 * size + 1, 3 * size + 3):
+            squares, ply, focus = tall_squares(rng, tak, size, h)
+            p = tak.Position.from_squares(tak.Config(size=size), squares, ply)
+            if h % 2:
+                p = tps.parse_tps(tps.format_tps(p))
+            ms = [m for m in tb if (m.x, m.y) == focus and m.type.is_slide()]
+            pw = partway_slides(tak, p)
+            for m in rng.sample(ms, min(len(ms), 6 if run.quick else 30)) + rng.sample(pw, min(len(pw), 3)):
+                call_move(p, m, partway=m in pw)
 
     n_pos = 170 if run.quick else 1500
     tps_texts = []
@@ -385,10 +493,11 @@ class Tree:
         self.refused = 0
         self.accepted = 0
 
-    # path: ("config", size) | ("tps", text) | ("move", parent index, move json) | ("sym", parent index, k)
-    def add(self, p, path):
+    # path: ("config", size) | ("tps", text) | ("squares", size, ply, board) | ("move", parent index, move json) | ("sym", parent index, k)
+    def add(self, p, path, focus=None):
         i = len(self.nodes)
-        self.nodes.append({"pos": p, "path": path, "snap": freeze(p)})
+        self.nodes.append({"pos": p, "path": path, "snap": freeze(p), "deep": copy.deepcopy(p), "full": fullsnap(p),
+                           "hash": safe_hash(p), "focus": focus})
         for lst in [p.board] + list(p.board):
             ent = self.objs.get(id(lst))
             if ent is None:
@@ -415,12 +524,12 @@ class Tree:
                 return ent
         return None
 
-    def sweep(self):
+    def sweep(self, full=True):
         for ent in self.objs.values():
             if ent[1] != tuple(id(x) for x in ent[0]):
                 return ent
         for i, nd in enumerate(self.nodes):
-            if freeze(nd["pos"]) != nd["snap"]:
+            if freeze(nd["pos"]) != nd["snap"] or not (nd["pos"] == nd["deep"]) or (full and whole_value_diff(nd["pos"], nd)):
                 return (None, None, [i])
         return None
 
@@ -450,6 +559,9 @@ def rebuild(tak, tps, symmetry, lineages):
             p = tak.Position.from_config(tak.Config(size=step[1]))
         elif step[0] == "tps":
             p = tps.parse_tps(step[1])
+        elif step[0] == "squares":
+            P = lambda c: tak.Piece.cached(tak.Color("WB".index(c[0])), tak.Kind("FSC".index(c[1])))  # noqa: E731
+            p = tak.Position.from_squares(tak.Config(size=step[1]), [[P(c) for c in sq] for sq in step[3]], step[2])
         elif step[0] == "move":
             p = go(prefix[:-1]).move(takio.mk_move(step[2]))
         else:
@@ -481,6 +593,11 @@ def _grow(run, budget_s, sizes, n_roots, all_table, label):
               "changed_position_before": _jsnap(T.nodes[w]["snap"]),
               "changed_position_after": _jsnap(freeze(T.nodes[w]["pos"])),
               "changed_position_is_receiver": w == recv, "retained_positions": len(T.nodes)}
+        wd = whole_value_diff(T.nodes[w]["pos"], T.nodes[w])
+        if wd:
+            rp["fields_differing_from_creation_time_deep_copy"] = wd
+            rp["fields_now"] = _jfields(T.nodes[w]["pos"], wd)
+            rp["fields_at_creation"] = _jfields(T.nodes[w]["deep"], wd)
         rp.update(extra or {})
         return rp
 
@@ -488,17 +605,23 @@ def _grow(run, budget_s, sizes, n_roots, all_table, label):
         nd = T.nodes[i]
         p = nd["pos"]
         T.calls += 1
+        blocked = False
         try:
             q = p.move(m)
-        except tak.IllegalMove:
+        except tak.IllegalMove as ex:
             q = None
             T.refused += 1
+            blocked = "slide onto" in str(ex)
         except Exception:  # noqa  (C01's business; still must not mutate)
             q = None
             T.refused += 1
         ent = T.check_objs([p.board] + list(p.board))
         if ent is not None or freeze(p) != nd["snap"]:
             return violation("move-changed-a-retained-position", i, m, ent), None
+        # whole-value comparison with the deep copy taken at creation: `==` after every call; also hash and attrs.asdict
+        # of all fields after a slide refused by a wall / capstone on its path (and for everything in the final sweep)
+        if not (p == nd["deep"]) or (blocked and whole_value_diff(p, nd)):
+            return violation("move-changed-the-whole-value-of-a-retained-position", i, m, None), None
         if q is not None:
             T.accepted += 1
         return None, q
@@ -517,15 +640,43 @@ def _grow(run, budget_s, sizes, n_roots, all_table, label):
             return T, {"kind": "producer-created-aliasing", "clause": "squares of a produced board share a non-empty stack object",
                        "lineage": T.lineage(i), "squares": list(bad), "position": _jsnap(freeze(T.nodes[i]["pos"]))}
     frontier = list(range(len(T.nodes)))
+    # tall towers (2*size+1 .. 3*size+2 high): built by from_squares and by parse_tps, and (sizes 3, 4) reached by play
+    # with every position on the way retained; they are expanded first, with every table slide from the tower square
+    first = []
+    for n in sizes:
+        for h in range(2 * n + 1, 3 * n + 3):
+            squares, ply, focus = tall_squares(rng, tak, n, h)
+            jb = [[takio.c_piece(x) for x in sq] for sq in squares]
+            p = tak.Position.from_squares(tak.Config(size=n), squares, ply)
+            first.append(T.add(p, ("squares", n, ply, jb), focus))
+            text = tps.format_tps(p)
+            first.append(T.add(tps.parse_tps(text), ("tps", text), focus))
+        if n <= 4:
+            for _ in range(2):
+                j = T.add(tak.Position.from_config(tak.Config(size=n)), ("config", n))
+                for m, q in tower_playout(rng, tak, n, min(3 * n + 2, 2 * n + 5)):
+                    j = T.add(q, ("move", j, takio.j_move(m)))
+                    frontier.append(j)
+                top = max(range(n * n), key=lambda k: len(T.nodes[j]["pos"].board[k]))
+                T.nodes[j]["focus"] = (top % n, top // n)
+                first.append(j)
+    run.extra.setdefault("tall_tower_roots", {})["".join(map(str, sizes))] = [
+        max(len(sq) for sq in T.nodes[i]["pos"].board) for i in first]
     done = 0
-    while frontier and time.time() - t0 < budget_s and found is None:
-        i = frontier.pop(rng.randrange(len(frontier))) if rng.random() < 0.7 else frontier.pop(0)
+    while (frontier or first) and time.time() - t0 < budget_s and found is None:
+        if first:
+            i = first.pop(0)
+        else:
+            i = frontier.pop(rng.randrange(len(frontier))) if rng.random() < 0.7 else frontier.pop(0)
         p = T.nodes[i]["pos"]
         n = p.size
+        focus = T.nodes[i]["focus"]
         legal = p.all_moves() if p.winner() == (None, None) else []
         attempts = list(legal)
         tb = tables[n]
         attempts += tb if (all_table or len(tb) <= 200) else rng.sample(tb, 200)
+        if focus is not None:
+            attempts += [m for m in tb if (m.x, m.y) == focus] + partway_slides(tak, p)
         attempts += rng.sample(ill[n], 40)
         attempts = list(dict.fromkeys(attempts))       # each (retained position, move) pair once; legal moves stay first
         kids = set(rng.sample(range(len(legal)), min(len(legal), 3))) if legal else set()
@@ -534,8 +685,8 @@ def _grow(run, budget_s, sizes, n_roots, all_table, label):
             if found:
                 break
             if q is not None and k in kids:
-                j = T.add(q, ("move", i, takio.j_move(m)))
-                frontier.append(j)
+                j = T.add(q, ("move", i, takio.j_move(m)), focus)
+                (first if focus is not None and len(first) < 40 and m.type.is_slide() else frontier).append(j)
                 bad = T.shared_nonempty(j)
                 if bad:
                     found = {"kind": "producer-created-aliasing", "clause": "squares of a produced board share a non-empty stack object",
@@ -565,7 +716,7 @@ def _grow(run, budget_s, sizes, n_roots, all_table, label):
                          "lineage": T.lineage(j), "squares": list(bad), "position": _jsnap(freeze(q))}
                 break
         if done % 50 == 0:
-            ent = T.sweep()
+            ent = T.sweep(full=False)
             if ent is not None:
                 found = violation("sweep-found-a-changed-position", ent[2][0], None, ent,
                                   {"note": "found by the periodic full sweep; the changing call is among the last 50 expansions"})
@@ -639,13 +790,16 @@ def replay(run, rp):
         if fn == "move":
             p = takio.mk_pos(inp["position"])
             before = (id(p.board), [id(s) for s in p.board], freeze(p))
+            nd = {"deep": copy.deepcopy(p), "full": fullsnap(p), "hash": safe_hash(p)}
             try:
                 p.move(takio.mk_move(inp["move"]))
                 out = "accepted"
             except Exception as ex:  # noqa
                 out = "refused: " + repr(ex)
             after = (id(p.board), [id(s) for s in p.board], freeze(p))
-            return {"violates": before != after, "outcome": out, "before": _jsnap(before[2]), "after": _jsnap(after[2])}
+            wd = whole_value_diff(p, nd)
+            return {"violates": before != after or bool(wd), "outcome": out, "before": _jsnap(before[2]), "after": _jsnap(after[2]),
+                    "whole_value_fields_changed": wd, "fields_now": _jfields(p, wd), "fields_at_creation": _jfields(nd["deep"], wd)}
         return {"violates": None, "note": "replay implemented for move inputs; rerun the check for " + fn}
     if kind == "producer-created-aliasing":
         tips, _ = rebuild(tak, tps, symmetry, [rp["lineage"]])
@@ -655,6 +809,7 @@ def replay(run, rp):
     if "receiver_lineage" in rp:
         tips, built = rebuild(tak, tps, symmetry, [rp["receiver_lineage"], rp["changed_position_lineage"]])
         snaps = [freeze(p) for p in built]
+        nds = [{"deep": copy.deepcopy(p), "full": fullsnap(p), "hash": safe_hash(p)} for p in built]
         recv = tips[0]
         out = None
         try:
@@ -666,7 +821,12 @@ def replay(run, rp):
         except Exception as ex:  # noqa
             out = "refused: " + repr(ex)
         changed = [k for k, p in enumerate(built) if freeze(p) != snaps[k]]
-        return {"violates": bool(changed), "outcome": out, "changed": [{"before": _jsnap(snaps[k]), "after": _jsnap(freeze(built[k]))} for k in changed[:3]]}
+        whole = {k: whole_value_diff(p, nds[k]) for k, p in enumerate(built)}
+        whole = {k: v for k, v in whole.items() if v}
+        return {"violates": bool(changed or whole), "outcome": out,
+                "changed": [{"before": _jsnap(snaps[k]), "after": _jsnap(freeze(built[k]))} for k in changed[:3]],
+                "whole_value_fields_changed": {str(k): {"fields": v, "now": _jfields(built[k], v), "at_creation": _jfields(nds[k]["deep"], v)}
+                                               for k, v in list(whole.items())[:3]}}
     # a broken obligation without a concrete input: re-run the oracle
     T, found = _grow(run, 20, [3, 4], 6, True, "replay")
     return {"violates": bool(found), "found": found}
